@@ -11,13 +11,16 @@ CHECK = {
     "packages": ["./internal/codec", "./supervisor", "./actor"],
     "harness": ["internal/codec/zz_verif_c37.go", "supervisor/zz_verif_c37.go", "actor/zz_verif_c37.go"],
     "entries": [
-        {"fn": P + "vC37_supervisor", "cases_quick": {"types": [3], "shape": list(range(2 * (1 + 3 + 9)))}, "cases_thorough": {"types": [5], "shape": list(range(2 * (1 + 5 + 25)))},
+        {"fn": P + "vC37_supervisor", "cases_quick": {"types": [2], "shape": list(range(2 * (1 + 2 + 4)))}, "cases_thorough": {"types": [5], "shape": list(range(2 * (1 + 5 + 25)))},
          "cover_optional": ("any-error", "two-typed-directives")},
         {"fn": P + "vC37_supervisor_nil"},
         {"fn": P + "vC37_passivation"},
         {"fn": P + "vC37_reentrancy"},
         {"fn": M + "actor.vC37_relocation", "opts": {"stub": [M + "internal/types.Name"]}},
+        {"fn": M + "actor.vC37_spawnOn", "opts": {"stub": [M + "internal/types.Name"]}},
     ],
+    "stop": ["(*" + M + "actor.actorSystem).Spawn", "(*" + M + "actor.actorSystem).spawnOnDatacenter", M + "actor.newRemotePID"],
+    "timeout_ms": {"quick": 170000, "thorough": 1500000},
     "opts": {"unwind": 16, "substitute": SUBST, "birth_guard_stores": True, "map_range": "per_entry", "map_dedup": True, "feas_from_iter": 100},
     "explanation": "",
     "bounds": {},
